@@ -81,6 +81,9 @@ pub trait Coll<E: LElem>: Sized {
     /// `pattern` (so it also varies between elements that cannot be told apart, e.g. zero-sized
     /// ones). Returns (answers given, in call order, with the visited id; ids yielded).
     fn extract_seq(&mut self, pattern: u64) -> Result<(Vec<(u64, bool)>, Vec<u64>), Bad>;
+    /// elements yielded (by repeated next()) by iter(), by into_iter() of a clone and by drain() of a
+    /// clone: each must be len()
+    fn counts(&self) -> [usize; 3];
     /// `get_many_mut` with one request for `id` and, if given, a second one for `absent` (an id that
     /// is not stored): Some((first is Some, second is Some)), or None if the collection has no such API
     fn get_many(&mut self, _id: u64, _absent: Option<u64>, _plan: &Plan) -> Result<Option<(bool, bool)>, Bad> {
@@ -92,6 +95,12 @@ pub trait Coll<E: LElem>: Sized {
 
 fn keep(id: u64, salt: u64, pct: u64) -> bool {
     splitmix64(id ^ salt.wrapping_mul(0x9E37_79B9)) % 100 < pct
+}
+
+/// `{:?}` of a live iterator / drain / entry: the element `Debug` impls check what they are handed.
+fn dbg_touch<T: std::fmt::Debug>(t: &T) {
+    let _q = Quiet::new();
+    let _ = format!("{:?}", t);
 }
 
 fn end<T>(x: T, forget: bool) {
@@ -229,6 +238,27 @@ impl<E: LElem> Coll<E> for TableC<E> {
         }
         Ok((calls, yielded))
     }
+    fn counts(&self) -> [usize; 3] {
+        let mut a = 0;
+        let mut it = self.0.iter();
+        while it.next().is_some() {
+            a += 1;
+        }
+        let mut b = 0;
+        let mut it = self.0.clone().into_iter();
+        while it.next().is_some() {
+            b += 1;
+        }
+        let mut c = 0;
+        let mut t = self.0.clone();
+        {
+            let mut it = t.drain();
+            while it.next().is_some() {
+                c += 1;
+            }
+        }
+        [a, b, c]
+    }
     fn get_many(&mut self, id: u64, absent: Option<u64>, plan: &Plan) -> Result<Option<(bool, bool)>, Bad> {
         let d = self.dump();
         Ok(Some(match absent {
@@ -260,6 +290,7 @@ impl<E: LElem> Coll<E> for TableC<E> {
                         check_elem(e, &d, "HashTable::iter item")?;
                     }
                 }
+                dbg_touch(&it);
                 end(it, forget);
                 Ok(After::Same)
             }
@@ -270,6 +301,7 @@ impl<E: LElem> Coll<E> for TableC<E> {
                         check_elem(e, &d, "HashTable::iter_mut item")?;
                     }
                 }
+                dbg_touch(&it);
                 end(it, forget);
                 Ok(After::Same)
             }
@@ -282,6 +314,7 @@ impl<E: LElem> Coll<E> for TableC<E> {
                         }
                     }
                 }
+                dbg_touch(&it);
                 end(it, forget);
                 Ok(After::Subset)
             }
@@ -307,6 +340,7 @@ impl<E: LElem> Coll<E> for TableC<E> {
                         }
                     }
                 }
+                dbg_touch(&it);
                 end(it, forget);
                 Ok(After::Consumed)
             }
@@ -333,6 +367,7 @@ impl<E: LElem> Coll<E> for TableC<E> {
                         check_elem(e, &d, "HashTable::iter_hash item")?;
                     }
                 }
+                dbg_touch(&it);
                 end(it, forget);
                 Ok(After::Same)
             }
@@ -450,6 +485,27 @@ impl<E: LElem> Coll<E> for SetC<E> {
         }
         Ok((calls, yielded))
     }
+    fn counts(&self) -> [usize; 3] {
+        let mut a = 0;
+        let mut it = self.0.iter();
+        while it.next().is_some() {
+            a += 1;
+        }
+        let mut b = 0;
+        let mut it = self.0.clone().into_iter();
+        while it.next().is_some() {
+            b += 1;
+        }
+        let mut c = 0;
+        let mut t = self.0.clone();
+        {
+            let mut it = t.drain();
+            while it.next().is_some() {
+                c += 1;
+            }
+        }
+        [a, b, c]
+    }
     fn life(&mut self, kind: u64, j: usize, forget: bool, key: u64, _plan: &Plan) -> Result<After, Bad> {
         let d = self.dump();
         match kind % Self::N_LIFE {
@@ -460,6 +516,7 @@ impl<E: LElem> Coll<E> for SetC<E> {
                         check_elem(e, &d, "HashSet::iter item")?;
                     }
                 }
+                dbg_touch(&it);
                 end(it, forget);
                 Ok(After::Same)
             }
@@ -472,6 +529,7 @@ impl<E: LElem> Coll<E> for SetC<E> {
                         }
                     }
                 }
+                dbg_touch(&it);
                 end(it, forget);
                 Ok(After::Subset)
             }
@@ -498,6 +556,7 @@ impl<E: LElem> Coll<E> for SetC<E> {
                         }
                     }
                 }
+                dbg_touch(&it);
                 end(it, forget);
                 Ok(After::Consumed)
             }
@@ -512,6 +571,7 @@ impl<E: LElem> Coll<E> for SetC<E> {
                 for _ in 0..j {
                     let _ = it.next();
                 }
+                dbg_touch(&it);
                 end(it, forget);
                 let mut it = self.0.union(&other);
                 for _ in 0..j {
@@ -521,6 +581,7 @@ impl<E: LElem> Coll<E> for SetC<E> {
                         }
                     }
                 }
+                dbg_touch(&it);
                 end(it, forget);
                 Ok(After::Same)
             }
@@ -658,6 +719,41 @@ impl<E: LElem> Coll<E> for MapC<E> {
         }
         Ok((calls, yielded))
     }
+    fn counts(&self) -> [usize; 3] {
+        let mut a = 0;
+        let mut it = self.0.iter();
+        while it.next().is_some() {
+            a += 1;
+        }
+        // into_iter, into_keys and into_values of clones must agree
+        let mut b = 0;
+        let mut it = self.0.clone().into_iter();
+        while it.next().is_some() {
+            b += 1;
+        }
+        let mut bk = 0;
+        let mut it = self.0.clone().into_keys();
+        while it.next().is_some() {
+            bk += 1;
+        }
+        let mut bv = 0;
+        let mut it = self.0.clone().into_values();
+        while it.next().is_some() {
+            bv += 1;
+        }
+        if bk != b || bv != b {
+            b = usize::MAX;
+        }
+        let mut c = 0;
+        let mut t = self.0.clone();
+        {
+            let mut it = t.drain();
+            while it.next().is_some() {
+                c += 1;
+            }
+        }
+        [a, b, c]
+    }
     fn get_many(&mut self, id: u64, absent: Option<u64>, _plan: &Plan) -> Result<Option<(bool, bool)>, Bad> {
         let d = self.dump();
         let k = E::make(id);
@@ -683,6 +779,17 @@ impl<E: LElem> Coll<E> for MapC<E> {
         let d = self.dump();
         macro_rules! walk {
             ($it:expr, $chk:expr) => {{
+                let mut it = $it;
+                for _ in 0..j {
+                    if let Some(x) = it.next() {
+                        #[allow(clippy::redundant_closure_call)]
+                        ($chk)(x)?;
+                    }
+                }
+                dbg_touch(&it);
+                end(it, forget);
+            }};
+            (nodebug $it:expr, $chk:expr) => {{
                 let mut it = $it;
                 for _ in 0..j {
                     if let Some(x) = it.next() {
@@ -724,7 +831,7 @@ impl<E: LElem> Coll<E> for MapC<E> {
                 Ok(After::Subset)
             }
             6 => {
-                walk!(self.0.extract_if(|k, _| k.id() % 2 == 0), |(k, v): (E, E)| -> Result<(), Bad> {
+                walk!(nodebug self.0.extract_if(|k, _| k.id() % 2 == 0), |(k, v): (E, E)| -> Result<(), Bad> {
                     if !k.verify() || !v.verify() {
                         bad!("C02", "extracted-element-garbage", "HashMap::extract_if yielded garbage");
                     }
@@ -1072,6 +1179,13 @@ impl<'c, E: LElem, C: Coll<E>> LInterp<'c, E, C> {
                 let c = self.coll.clone_c();
                 if c.len() != self.model.len() {
                     bad!("C11", "clone-not-equal", "{} of {}: clone holds {} elements, source {}", C::KIND, E::name(), c.len(), self.model.len());
+                }
+                let counts = {
+                    let _q = Quiet::new();
+                    self.coll.counts()
+                };
+                if counts != [self.model.len(); 3] {
+                    bad!("C09", "yield-count", "{} of {}: iter() / into_iter() / drain() advanced by next() yield {:?} elements, len() is {}", C::KIND, E::name(), counts, self.model.len());
                 }
                 if a[0] % 2 == 0 {
                     self.coll = c;
